@@ -161,7 +161,12 @@ impl BaseBandModulationParams {
         };
 
         const fn div_ceil(num: i32, denom: i32) -> i32 {
-            (num - 1) / denom + 1
+            if num <= 0 {
+                // truncating division already rounds a non-positive quotient up
+                num / denom
+            } else {
+                (num - 1) / denom + 1
+            }
         }
 
         let big_ratio = div_ceil(8 * len as i32 - 4 * sf + 28 + 16 - 20 * h, 4 * (sf - 2 * de));
